@@ -36,6 +36,7 @@ pub fn prop() -> Prop {
             Tier::Thorough => 300,
         },
         required_probes: &["dkg_completed", "own_id_smallest", "own_id_largest", "ids_derived", "ids_scalar", "ids_u16ext", "t_eq_n", "crash_during_dkg", "signed_after_dkg", "taproot_dkg"],
+        prepare: None,
     }
 }
 
